@@ -1076,14 +1076,22 @@ def probe_fails(sim, p, who):
     def fail(cause, what): fails.append(dict(signature=dict(oracle='scheduled-now', cause=cause), what=f'{who}: {what}'))
     abst = [float(x) for x in p.t.abstvec]; stv = [float(x) for x in sim.t.tvec]; yv = [float(x) for x in p.t.yearvec]
     eps = float(ref.TOL)
+    # Its points up to the sim's last point must each be executed once, in order.  Points of its timeline that lie AFTER the
+    # sim's last point (a sim whose dur is not a multiple of its dt, a module stop after the sim's) are within the module's own
+    # stop; whether the loop executes them is not part of this property (today it does, after the sim's last step)
     expected_calls = [k for k in range(int(p.t.npts)) if abst[k] <= stv[-1] + eps]
-    if [r['ti'] for r in p.log] != expected_calls:
-        fail('calls', f"called at own steps {[r['ti'] for r in p.log][:12]} but its timeline has the points {expected_calls[:12]} within the sim")
+    calls = [r['ti'] for r in p.log]
+    if calls[:len(expected_calls)] != expected_calls or calls != list(range(len(calls))) or len(calls) > int(p.t.npts):
+        fail('calls', f"called at own steps {calls[:12]} but its timeline has the points {expected_calls[:12]} within the sim")
         return fails
     for r in p.log:
         k = r['ti']
         if abs(r['year'] - yv[k]) > eps or abs(r['tvec'] - float(p.t.tvec[k])) > eps:
             fail('now', f"at its call {k} now('year')={r['year']} / now('tvec')={r['tvec']} but its point {k} is year {yv[k]}, tvec {float(p.t.tvec[k])}"); break
+        if r['sim_ti'] >= len(stv):       # after the sim's last step: only a point that lies after the sim's last point may be executed there
+            if not abst[k] > stv[-1] + eps:
+                fail('instant', f"its point {k} lies at elapsed sim time {abst[k]}, not after the sim's last point {stv[-1]}, but it is called after the sim's last step"); break
+            continue
         lo = stv[r['sim_ti'] - 1] if r['sim_ti'] > 0 else float('-inf')
         if not (lo + eps < abst[k] <= stv[r['sim_ti']] + eps) or abs(r['sim_tvec'] - stv[r['sim_ti']]) > eps:
             fail('instant', f"its point {k} lies at elapsed sim time {abst[k]} but it is called while the sim is at {r['sim_tvec']} (previous sim point {lo})"); break
@@ -1193,8 +1201,12 @@ def run_zoo(name, cfg):
     from harness import impl
     out = dict(spec=cfg_spec(cfg))
     try:
+        probes = zoo_probes(cfg)
+    except Exception as e:      # a configuration shape the probe maker does not understand: run the entry without probes
+        probes = []; out['probe_error'] = f'{type(e).__name__}: {e}'
+    try:
         def build():
-            sim = impl.build_sim(cfg, extra_analyzers=zoo_probes(cfg))
+            sim = impl.build_sim(cfg, extra_analyzers=probes)
             pre = {id(m): dict(unit=m.t.unit, start=m.t.start, stop=m.t.stop, dt=m.t.dt) for m in given_modules(sim)}
             sim.init()
             return sim, pre
@@ -1263,6 +1275,8 @@ def search_zoo(ctx):
             if info.get('rejected') and not fails: continue
         ctx.count('zoo_runs')
         z = _ZOO_RUNS[name]
+        if z.get('probe_error'):
+            ctx.count('zoo_exceptions'); ctx.notes['last_zoo_exception'] = f"{name}: probes not made: {z['probe_error']}"
         ctx.count('zoo_timelines', 1 + len(z.get('init', {}).get('mods', {})))
         for f in fails:
             ctx.fail(f['signature'], f'[zoo:{name}] ' + f['what'], dict(kind='zoo', name=name, cfg=cfg))
